@@ -268,7 +268,9 @@ class EquationParser(object):
         """
         for var, eqn in self.Endogenous:
             rhs = self.CleanupRightHandSide(eqn)
-            if rhs in self.AllEquations:
+            # A variable that carries its own initial condition is not interchangeable with its target at k=0
+            # (the two may start from different values), so it is left alone.
+            if rhs in self.AllEquations and var not in self.InitialConditions:
                 # We have a case where VAR1 = VAR2.  Replace occurrences of VAR1 by VAR2 in all equations.
                 # BUT: Must break loops like:  (x=y), (y=x), since they will not converge
                 if var == self.CleanupRightHandSide(self.AllEquations[rhs]):
